@@ -12,14 +12,16 @@ What is decided, and how
       iodata.utils and the reader applies the inverse operation with the same constant.
   Z1 (bounded): three generations of save/reload on generated objects and on every corpus file converted to every
       format that accepts it; generation 2 must equal generation 1 bit for bit and file 3 must equal file 2.
-The rounding lemma itself is validated by sampling on every run (it is an assumption of the argument, not proved).
+The margin lemma (a unit factor between parsing and printing) is machine-checked on every run for each (precision, column
+bound) a writer uses: pyvc/rounding.py, z3 over exact rationals, under the standard model fl(x) = x(1+d), |d| <= 2^-53.
+The bare lemma (no arithmetic in between) remains a hand argument that is sampled on every run (an assumption).
 """
 
 from __future__ import annotations
 
 import random
 
-from pyvc import fmtspec
+from pyvc import fmtspec, rounding
 from pyvc.core import Ledger
 
 from . import rt_common
@@ -64,12 +66,33 @@ def lemma_sampling(chk):
             n += 1
             if s1 != s2 and len(bad) < 3:
                 bad.append({"s1": s1, "s2": s2, "d": d})
-    chk.add_bounded("lemma.margin-condition-implies-stability-through-a-unit-factor", f"{n} random decimals inside the bounds the inequalities allow", n, bad, note="assumption of the stable@ obligations, validated here by sampling only")
+    chk.add_bounded("lemma.margin-condition-implies-stability-through-a-unit-factor", f"{n} random decimals inside the bounds the inequalities allow", n, bad, note="cross-check of the floating-point model of pyvc/rounding.py against CPython; the lemma itself is discharged by z3 (lemma.round.*)")
     del math
+
+
+_lemma_done = {}
+
+
+def lemma_status(led, inst):
+    """Prove (once per run) the instance of the rounding lemma that a field's margin refers to; returns its status."""
+    if not _lemma_done:
+        rounding.prove_accumulate(led)
+        _lemma_done["accumulate"] = led.obligations["pyvc.rounding::lemma.round.accumulate"].status
+    if inst not in _lemma_done:
+        if inst[0] == "f":
+            rounding.prove_fixed(inst[1], inst[2], led)
+            names = [f"pyvc.rounding::lemma.round.fixed[p={inst[1]},k={inst[2]}]"]
+        else:
+            rounding.prove_sci(inst[1], led)
+            names = [f"pyvc.rounding::lemma.round.sci[p={inst[1]}]", f"pyvc.rounding::lemma.round.sci-scale[p={inst[1]}]"]
+        sts = [led.obligations[n].status for n in names] + [_lemma_done["accumulate"]]
+        _lemma_done[inst] = "discharged" if all(x == "discharged" for x in sts) else ("refuted" if "refuted" in sts else "unknown")
+    return _lemma_done[inst]
 
 
 def static_obligations(chk):
     led = Ledger()
+    _lemma_done.clear()
     nfields = 0
     for fmt in rt_common.RW_FORMATS:
         reader_ops = fmtspec.reader_unit_ops("iodata.formats." + fmt)
@@ -84,8 +107,16 @@ def static_obligations(chk):
             if not grouping_ok:
                 continue
             origin = "; ".join(f"{op} {src[:50]} ({kind})" for op, src, kind in org.factors) or "printed as stored"
+            inst = None if bare else fmtspec.margin_instance(f)
             if ok is None:
                 led.record(f"stable@{name}", "post", "unknown", "ast", 0.0, detail=why)
+            elif inst is not None:
+                # the verdict rests on the margin inequality: decide it in exact rationals and tie a positive verdict to the
+                # machine-checked instance of the rounding lemma (pyvc/rounding.py)
+                exact = rounding.ground_margin_agrees(inst[0], inst[1], inst[2] if inst[0] == "f" else None, ok, led)
+                lemma = lemma_status(led, inst) if exact else None
+                status = "refuted" if not exact else ("discharged" if lemma == "discharged" else "unknown")
+                led.record(f"stable@{name}", "post", status, "exact-rational + z3 lemma", 0.0, detail=f"{why}; lemma instance {inst}: {lemma}; origin of the value: {origin}", witness={"record": rec.text(), "line": f.line, "origin": origin})
             else:
                 led.record(f"stable@{name}", "post", "discharged" if ok else "refuted", "arith", 0.0, detail=f"{why}; origin of the value: {origin}", witness={"record": rec.text(), "line": f.line, "origin": origin})
             # Z5: factors are units with the inverse operation in the reader
@@ -134,7 +165,8 @@ def run(chk):
     chk.functions += [f"iodata.formats.{fmt}: every record printed by dump_one / dump_many and the helpers they call (float fields under the stability contract)" for fmt in rt_common.RW_FORMATS if fmt != "json_qcschema"]
     chk.trusted += [
         "CPython float() and format() are correctly rounded (IEEE 754 binary64, round-half-even)",
-        "rounding lemma of pyvc/fmtspec.stability_condition (hand argument, sampled on every run)",
+        "floating-point model of pyvc/rounding.py: float(text), one multiplication and one division each return x(1+d), |d| <= 2^-53 (no overflow/underflow), and format() returns a nearest decimal of the requested precision; under this model the margin lemma is machine-checked (lemma.round.* obligations, z3, exact rationals) and additionally sampled against CPython on every run",
+        "bare print/parse/print idempotence (no arithmetic between parsing and printing): hand argument in fmtspec.stability_condition, sampled on every run, not machine-checked",
         "readers apply no arithmetic other than the unit factors found by fmtspec.reader_unit_ops to the parsed numbers (Molden/Molekel vendor fixes, WFN/WFX normalisation scales and json are covered by the bounded cycles only)",
         "convert_conventions returns signs in {+1,-1} (proved in C10), so multiplying by them is exact",
     ]
@@ -151,4 +183,4 @@ def run(chk):
     lemma_sampling(chk)
     rt_common.run_probe(chk, "c15")
     chk.samples = [o.as_dict() for o in list(chk.ledger.obligations.values())[:6]]
-    chk.notes["explanation"] = "C15: per-field stability inequalities generated from the writers' format specs (deductive, modulo the sampled rounding lemma), unit-factor inverses, and three-generation cycles on generated objects and the converted corpus (bounded)"
+    chk.notes["explanation"] = "C15: per-field stability inequalities generated from the writers' format specs (deductive: margin lemma instances discharged by z3 under the standard floating-point error model; the bare print/parse/print lemma is sampled only), unit-factor inverses, and three-generation cycles on generated objects and the converted corpus (bounded)"
